@@ -5,6 +5,7 @@ import r_arms
 import r_typaren
 import r_regex
 import r_opt
+import r_layout
 
 EXPLANATION = (
     "(R-VARIANT) for every formatter over a full_moon enum and every variant of every feature configuration, all paths "
@@ -23,4 +24,4 @@ def run(ctx):
     return [r_tree.rule_variant(ctx, "C02"), r_tree.rule_sym(ctx, "C02"),
             r_paren.rule_paren(ctx, "C02", parts=("table", "oracle", "context-lost")),
             r_tree.rule_semi(ctx, "C02"), r_tree.rule_cond(ctx, "C02"), r_typaren.rule_typaren(ctx, "C02"), r_arms.rule_arms(ctx, "C02"),
-            r_regex.rule_regex(ctx, "C02"), r_opt.rule_call_parens(ctx, "C02"), r_tree.rule_element(ctx, "C02"), r_tree.rule_simple_block(ctx, "C02"), r_paren.rule_condition_parens(ctx, "C02"), r_tree.rule_positional(ctx, "C02")]
+            r_regex.rule_regex(ctx, "C02"), r_opt.rule_call_parens(ctx, "C02"), r_tree.rule_element(ctx, "C02"), r_tree.rule_simple_block(ctx, "C02"), r_paren.rule_condition_parens(ctx, "C02"), r_tree.rule_positional(ctx, "C02"), r_layout.rule_comment_layout(ctx, "C02")]
